@@ -22,7 +22,7 @@ func init() {
 		Level: "exploration",
 		Rule: "race-detector build. 8 reader goroutines each run read transactions that parse and run queries (scalar, set, map, dotted), IterateIds, unique / set index reads and link reads, against 2 writers committing multi-operation transactions that rewrite the whole database into a self-certifying stamped state(g); " +
 			"every read transaction must observe exactly one generation in full (entities, index entries, links, query results). In parallel goroutines hammer ast.Parse on identical and distinct strings incl. invalid ones (parser / lexer pools, error listeners), Store.GetSymbol for plain, set, dotted and map names on one shared store, " +
-			"and IsErrNotFoundErr / IsReferenceExistsError / IsUniqueIndexDuplicateError on matching and non-matching errors (results checked). zitiql.ParseWithDebug with the debug switch on and off on valid and invalid sentences (a non-debug parse of a valid sentence has no errors, an invalid one has errors); the readers start with a rendezvous inside open read transactions before their first >5-field sort and first use of new symbol names, and ask two IteratorMatchingAnyOf providers shared by all goroutines and transactions (membership swaps with every generation). Any race-detector report whose racing access is in openziti/storage or antlr is a violation. " +
+			"and IsErrNotFoundErr / IsReferenceExistsError / IsUniqueIndexDuplicateError on matching and non-matching errors (results checked). zitiql.ParseWithDebug with the debug switch on and off on valid and invalid sentences (a non-debug parse of a valid sentence has no errors, an invalid one has errors); the readers start with a rendezvous right in front of their first read transactions, which begin with a >5-field sort and first use of new symbol names, and ask two IteratorMatchingAnyOf providers shared by all goroutines and transactions (membership swaps with every generation). Any race-detector report whose racing access is in openziti/storage or antlr is a violation. " +
 			"non-trivial = distinct generations observed by read transactions that spanned at least one commit",
 		Assumptions: []string{"interleavings are sampled, not enumerated; compiled queries are not shared between goroutines (not claimed)", "a race report whose racing accesses are both in the harness makes the run inconclusive"},
 		MaxWorkers:  4,
@@ -94,10 +94,13 @@ func runC18(c *core.Ctx, idx int) {
 		go func(rd int) {
 			defer rwg.Done()
 			// first touch: whatever a store sets up lazily on its read path (per sort shape, per symbol name) is reached by
-			// all readers at the same moment, each inside its own open read transaction
+			// all readers at the same moment, each in its own read transaction
+			// (the rendezvous is in front of the transactions: a reader waiting for another one INSIDE its transaction would
+			// deadlock with a writer that has to grow the memory map - it waits for the open read transaction and keeps new
+			// ones from starting)
+			firstTouch.Done()
+			firstTouch.Wait()
 			_ = s.db.View(func(tx *bbolt.Tx) error {
-				firstTouch.Done()
-				firstTouch.Wait()
 				for _, q := range []string{"sort by gen, name desc, hub, gen desc, name, id, hub desc", `attrs.first.touch = "x" sort by name, gen, hub, id, name desc, gen desc`, `anyOf(hubs.gen) = 1 or meta.firsttouch = 2`, "skip 1 limit 2"} {
 					if _, _, err := s.sc.St("cells").Store.QueryIds(tx, q); err != nil {
 						c.Violationf("C18 first concurrent use of a query shape failed", q, "%v", err)
